@@ -23,6 +23,7 @@ type AdvOpts struct {
 	Weights      []int
 	AfterStep    func(label string)
 	Corrupt      func(frame []byte) []byte // C09: in-flight corruption of what the peer sends
+	HonestLogon  bool // (re)logons are in sequence, without reset
 }
 
 type Adv struct {
@@ -64,6 +65,16 @@ func (a *Adv) ensureSession() bool {
 		return false
 	}
 	a.Logons++
+	if a.o.HonestLogon {
+		p.OutSeq = a.engT()
+		if a.s.E.Cfg.Initiator {
+			if lg, ok := LastOfType(p.Recv, "A"); ok && lg.Conn == p.Conn && lg.Str(141) == "Y" {
+				p.OutSeq = 1
+			}
+		}
+		a.send("A", p.LogonBody(a.hb, false), MsgOpt{})
+		return p.Connected()
+	}
 	reset := ch.Chance("logonreset", 1, 6) && a.s.E.Cfg.BeginString >= "FIX.4.1"
 	o := MsgOpt{}
 	switch ch.Weighted("logonseq", []int{8, 1, 1}) {
